@@ -184,3 +184,22 @@ func VerifC10Fallback(s *Server, idx int) bool {
 	go e.reader(idx, e.pcs[idx])
 	return true
 }
+
+// VerifC10LeaseProbe returns a reader of the UDP engine's lease counter that
+// stays valid after the server has stopped (the listener forgets its engine on
+// shutdown, the probe keeps it): "no held slabs" is `leased == 0` once every
+// reader has released its armed ring and every worker has drained.  (gap
+// C11-r3-3: a slab lost by a reader is a lease that is never counted down.)
+func VerifC10LeaseProbe(s *Server) func() (leased, inFlight int64) {
+	u, _ := verifC10Listeners(s)
+	if u == nil {
+		return nil
+	}
+	u.mu.Lock()
+	e := u.engine
+	u.mu.Unlock()
+	if e == nil {
+		return nil
+	}
+	return func() (int64, int64) { return e.leased.Load(), e.inFlight.Load() }
+}
